@@ -49,7 +49,7 @@ func (kv *KV) Unmarshal(data []byte) error {
 				return err
 			}
 			offset += n
-			if dataSize-offset < size {
+			if v > uint64(dataSize-offset) {
 				return fmt.Errorf("remaining data to short for indicated size")
 			}
 			b := data[offset : offset+size : offset+size]
